@@ -327,7 +327,7 @@ class Vocabulary(Mapping):
             )
 
         if is_number(value):
-            value *= Identity(self.dimensions)
+            value *= Identity(self.dimensions, vocab=self)
         elif not isinstance(value, semantic_pointer.SemanticPointer):
             raise SpaParseError(
                 f"The result of parsing '{text}' is not a SemanticPointer."
